@@ -174,8 +174,12 @@ void sched_end(sched_result* out)
     if (out) *out = g_res;
 }
 
+/* fault injection: the k-th pthread_create issued from now on (1-based) fails with EAGAIN, as under a thread / pid limit; 0 = off */
+static int g_failCreateAt;
+void sched_fail_create_at(int k) { g_failCreateAt = k; }
 int __wrap_pthread_create(pthread_t* th, const pthread_attr_t* attr, void* (*fn)(void*), void* arg)
 {
+    if (g_failCreateAt > 0 && --g_failCreateAt == 0) return EAGAIN;
     if (!sched_active()) return __real_pthread_create(th, attr, fn, arg);
     int const me = self;
     if (nT >= MAXT) { fprintf(stderr, "sched: too many threads\n"); abort(); }
@@ -281,7 +285,8 @@ void sched_set_op(const char* l) { (void)l; }
 void sched_label(const void* o, const char* n) { (void)o; (void)n; }
 void sched_begin(uint64_t seed, int mode, int d, uint64_t e, uint64_t l, int s) { (void)mode; (void)d; (void)e; (void)l; (void)s; g_seed = seed; g_events = 0; g_on = 1; }
 void sched_end(sched_result* out) { g_on = 0; if (out) { memset(out, 0, sizeof *out); out->steps = g_events; out->hash = mix(g_seed); } }
-int __wrap_pthread_create(pthread_t* th, const pthread_attr_t* a, void* (*fn)(void*), void* arg) { jitter(); return __real_pthread_create(th, a, fn, arg); }
+static int g_failCreateAt; void sched_fail_create_at(int k) { g_failCreateAt = k; }
+int __wrap_pthread_create(pthread_t* th, const pthread_attr_t* a, void* (*fn)(void*), void* arg) { if (g_failCreateAt > 0 && --g_failCreateAt == 0) return EAGAIN; jitter(); return __real_pthread_create(th, a, fn, arg); }
 int __wrap_pthread_join(pthread_t th, void** r) { jitter(); return __real_pthread_join(th, r); }
 int __wrap_pthread_mutex_init(pthread_mutex_t* m, const pthread_mutexattr_t* a) { return __real_pthread_mutex_init(m, a); }
 int __wrap_pthread_mutex_destroy(pthread_mutex_t* m) { return __real_pthread_mutex_destroy(m); }
